@@ -15,6 +15,23 @@ Definition invB (w : wstate) : Prop := forall k i, waiting_id (w_cpc w k) = Some
 Lemma waiting_call_id p i : waiting_id p = Some i -> call_id p = Some i.
 Proof. destruct p; cbn; congruence. Qed.
 
+Ltac closers I :=
+  first
+  [ solve [left; assumption]
+  | solve [left; unfold aset; left; reflexivity]
+  | solve [left; unfold aset; right; apply In_adel_other; [assumption|
+           match goal with H : In (?i, _) (w_calls ?w) |- _ => pose proof (a_calls_le w I _ _ H); lia end]]
+  | solve [right; left; assumption]
+  | solve [right; left; rewrite ?upd_same, ?upd_other by assumption; first [assumption|discriminate]]
+  | solve [right; right; left; eexists; eassumption]
+  | solve [right; right; left; eexists; reflexivity]
+  | solve [right; right; right; assumption]
+  | solve [right; right; right; apply In_remove_val_other; assumption]
+  | solve [congruence]
+  | solve [exfalso; cbn [hcalls] in *; assumption]
+  | solve [match goal with E : w_hpc _ = _ |- _ => rewrite E in *; cbn [hcalls] in *; first [contradiction|tauto] end]
+  ].
+
 Lemma invB_step w e w' : invA w -> invB w -> wstep w e = Some w' -> invB w'.
 Proof.
   intros I B H. unfold invB, accounted in *.
@@ -24,6 +41,136 @@ Proof.
     try (match goal with E : w_cpc w ?k = _ |- _ =>
            let B' := fresh "B" in pose proof (B k) as B'; rewrite E in B'; cbn [waiting_id] in B';
            try (inversion Hw; subst); try specialize (B' _ eq_refl) end);
-    try solve [tauto | firstorder congruence].
-  all: idtac "left". Show.
-Abort.
+    try assumption; try solve [tauto].
+  all: try closers I.
+  all: try (match goal with B : _ \/ _ |- _ => destruct B as [B|[B|[[? B]|B]]] end; closers I).
+  - (* ECallRemove: another waiting call keeps its entry, ids being distinct *)
+    destruct B as [B|[B|[[r B]|B]]]; [|tauto|right; right; left; eauto|tauto].
+    left. apply In_adel_other; [assumption|]. intros ->.
+    apply n. eapply (a_inj w I); [apply waiting_call_id; eassumption|rewrite E; reflexivity].
+  - (* popInflight found the call: it is now with the receive loop *)
+    destruct B as [B|[B|[[r B]|B]]]; [|tauto|congruence|tauto].
+    destruct (N.eq_dec i0 n) as [->|Hne].
+    + apply alookup_In in E1. pose proof (NoDup_keys_unique _ _ _ _ (a_calls_nd w I) B E1). subst.
+      right; right; left. eexists; reflexivity.
+    + left. apply In_adel_other; assumption.
+  - (* deliverCallResponse finds the channel already full *)
+    destruct B as [B|[B|[[r1 B]|B]]]; [tauto|tauto| |tauto].
+    inversion B; subst. right; left. congruence.
+  - (* handleReconnect delivers to k: every other call stays in the snapshot *)
+    destruct B as [B|[B|[[r1 B]|B]]]; [tauto|tauto|right; right; left; eauto|].
+    destruct (Nat.eq_dec k0 k) as [->|Hne].
+    + right; left. congruence.
+    + right; right; right. cbn [hcalls] in B. apply In_remove_val_other; assumption.
+Qed.
+
+Lemma invB_init : invB winit.
+Proof. intros k i H. cbn in H. discriminate. Qed.
+
+Lemma invAB_run evs : forall w w', invA w -> invB w -> wrun evs w = Some w' -> invA w' /\ invB w'.
+Proof.
+  induction evs as [|e evs IH]; intros w w' I B H; cbn in H; [inversion H; subst; auto|].
+  destruct (wstep w e) eqn:E; [|discriminate]. eapply IH; [| |exact H].
+  - eapply invA_step; eauto.
+  - eapply invB_step; eauto.
+Qed.
+
+(* calls registered before a reconnect are not in the table afterwards *)
+Lemma cpc_not_new_step w e w' k : wstep w e = Some w' -> w_cpc w k <> CNew -> w_cpc w' k <> CNew.
+Proof.
+  intros H Hn. destruct e; step_cases H; wsimp; try assumption; split_upd; try assumption; try discriminate; congruence.
+Qed.
+
+Definition registered_later (w0 w : wstate) : Prop :=
+  (forall i k, In (i, k) (w_calls w) -> w_cpc w0 k = CNew) /\
+  (forall i k, In (i, k) (hcalls (w_hpc w)) -> w_hpc w = w_hpc w -> True).
+
+Lemma calls_later_step w0 w e w' :
+  (forall k, w_cpc w0 k <> CNew -> w_cpc w k <> CNew) ->
+  (forall i k, In (i, k) (w_calls w) -> w_cpc w0 k = CNew) ->
+  wstep w e = Some w' ->
+  (forall i k, In (i, k) (w_calls w') -> w_cpc w0 k = CNew).
+Proof.
+  intros M L H. destruct e; step_cases H; wsimp; try assumption; intros i0 k0 Hin; use_in; eauto.
+  all: try contradiction.
+  destruct (w_cpc w0 k) eqn:E0; [reflexivity|exfalso; eapply (M k); [rewrite E0; discriminate|exact E]..].
+Qed.
+
+Lemma later_run evs : forall w0 w w',
+  (forall k, w_cpc w0 k <> CNew -> w_cpc w k <> CNew) ->
+  (forall i k, In (i, k) (w_calls w) -> w_cpc w0 k = CNew) ->
+  wrun evs w = Some w' ->
+  (forall i k, In (i, k) (w_calls w') -> w_cpc w0 k = CNew).
+Proof.
+  induction evs as [|e evs IH]; intros w0 w w' M L H; cbn in H; [inversion H; subst; exact L|].
+  destruct (wstep w e) eqn:E; [|discriminate]. eapply IH; [| |exact H].
+  - intros k Hk. eapply cpc_not_new_step; eauto.
+  - eapply calls_later_step; eauto.
+Qed.
+
+Lemma waiting_monotone_step w e w' k i :
+  wstep w e = Some w' -> call_id (w_cpc w k) = Some i -> call_id (w_cpc w' k) = Some i.
+Proof.
+  intros H Hc. destruct e; step_cases H; wsimp; try assumption; split_upd; try assumption;
+    match goal with E : w_cpc _ _ = _ |- _ => rewrite E in Hc; cbn in *; congruence end.
+Qed.
+
+(* The theorem.  Take any reachable state w1, let handleReconnect start there (EClear), and let the
+   system run on in any way (other reconnects included).  In every later state in which that
+   handleReconnect is past its delivery loop, every call that was registered and unanswered before
+   the reconnect has completed, or its response channel is full (its receive is enabled, the select
+   cannot block), or the receive loop is at this moment handing it a reply popped before the drop. *)
+Theorem ws_reconnect_completes :
+  forall evs1 w1 w1' evs2 w2,
+    wrun evs1 winit = Some w1 -> wstep w1 EClear = Some w1' -> wrun evs2 w1' = Some w2 ->
+    (forall cs ss, w_hpc w2 <> HCalls cs ss) ->
+    forall k i, waiting_id (w_cpc w1 k) = Some i ->
+      (* completed *)
+      (exists o, w_cpc w2 k = CGot i o \/ w_cpc w2 k = CDone i o) \/
+      (* or a response (the reconnect error, or a reply that arrived in time) is in its channel *)
+      (waiting_id (w_cpc w2 k) = Some i /\
+       (w_chan w2 k <> None \/ exists r, w_rpc w2 = RDeliver k r)).
+Proof.
+  intros evs1 w1 w1' evs2 w2 H1 Hc H2 Hh k i Hw.
+  destruct (invAB_run _ _ _ invA_init invB_init H1) as [I1 B1].
+  assert (I1' : invA w1') by exact (invA_step _ _ _ I1 Hc).
+  assert (B1' : invB w1') by exact (invB_step _ _ _ I1 B1 Hc).
+  destruct (invAB_run _ _ _ I1' B1' H2) as [I2 B2].
+  (* nothing registered before the reconnect is in the table afterwards *)
+  assert (L : forall i k, In (i, k) (w_calls w2) -> w_cpc w1' k = CNew).
+  { eapply later_run; [| |exact H2]; [intros k0 Hk0; exact Hk0|].
+    unfold wstep in Hc. destruct (w_hpc w1); try discriminate. inversion Hc; subst. cbn. intros ? ? []. }
+  assert (Hk1' : w_cpc w1' k = w_cpc w1 k).
+  { unfold wstep in Hc. destruct (w_hpc w1); try discriminate. inversion Hc; subst. reflexivity. }
+  assert (Hid : call_id (w_cpc w2 k) = Some i).
+  { assert (G : forall evs w w', wrun evs w = Some w' -> call_id (w_cpc w k) = Some i -> call_id (w_cpc w' k) = Some i).
+    { induction evs as [|e evs IH]; intros w w' Hr Hcid; cbn in Hr; [inversion Hr; subst; exact Hcid|].
+      destruct (wstep w e) eqn:E; [|discriminate]. eapply IH; [exact Hr|]. eapply waiting_monotone_step; eauto. }
+    eapply G; [exact H2|]. rewrite Hk1'. apply waiting_call_id. exact Hw. }
+  destruct (w_cpc w2 k) eqn:Ek; cbn in Hid; try discriminate; inversion Hid; subst.
+  - right. split; [reflexivity|].
+    destruct (B2 k i) as [B|[B|[B|B]]]; [rewrite Ek; reflexivity| | | |].
+    + exfalso. specialize (L _ _ B). rewrite Hk1' in L. rewrite L in Hw. discriminate.
+    + left; exact B.
+    + right; exact B.
+    + exfalso. destruct (w_hpc w2) eqn:Eh; cbn in B; try contradiction. eapply Hh; reflexivity.
+  - right. split; [reflexivity|].
+    destruct (B2 k i) as [B|[B|[B|B]]]; [rewrite Ek; reflexivity| | | |].
+    + exfalso. specialize (L _ _ B). rewrite Hk1' in L. rewrite L in Hw. discriminate.
+    + left; exact B.
+    + right; exact B.
+    + exfalso. destruct (w_hpc w2) eqn:Eh; cbn in B; try contradiction. eapply Hh; reflexivity.
+  - left. eexists; left; reflexivity.
+  - left. eexists; right; reflexivity.
+Qed.
+
+(* the delivery loop itself is never blocked: as long as calls remain in the snapshot one of them can
+   be served, whatever the other threads have done meanwhile *)
+Lemma reconnect_delivery_enabled w cs ss :
+  w_hpc w = HCalls cs ss -> cs <> [] -> exists k w', wstep w (ERcDeliver k) = Some w'.
+Proof.
+  intros E Hne. destruct cs as [|[i k] cs]; [congruence|]. exists k.
+  unfold wstep. rewrite E. cbn [has_val]. rewrite Nat.eqb_refl. cbn. eauto.
+Qed.
+
+
